@@ -106,6 +106,7 @@ func runC10(c *core.Ctx) {
 	c.RuleDoc("R10.3", "memoised info comes from the source")
 	c.RuleDoc("R10.4", "directory handle lists the source")
 	c.RuleDoc("R10.5", "a copy that was not written and closed successfully does not stay in the cache")
+	c.RuleDoc("R10.8", "the cache's directory handle can be rewound with Seek like the source's")
 	c.RuleDoc("R10.7", "a partial copy that could not be removed stays marked until it is removed")
 	c.RuleDoc("R10.6", "the fill does not take a short count (or one Read) for the whole file")
 	for _, p := range c.Progs {
@@ -157,6 +158,7 @@ func runC10(c *core.Ctx) {
 	}
 	c.Floor("R10.5", 2)
 	c.Floor("R10.7", 2)
+	c.Floor("R10.8", 1)
 	c.Floor("R10.1", 1)
 	c.Floor("R10.2", 1)
 	c.Floor("R10.3", 1)
@@ -301,6 +303,36 @@ func r10Dir(c *core.Ctx, p *load.Program, sh *cacheShape) {
 		c.Check(ok, "R10.4", "cache.dir.Stat|via-cache-stat", p.Pos(fn.Pos()), "directory info comes from the cache FS's memoised source Stat",
 			"cache.dir.Stat does not go through the cache file system's Stat (the memoised source info)")
 	}
+	// R10.8: the directory handle can be rewound like the source's: Seek stores the constant 0 into the cursor field
+	// that ReadDir advances (without Seek, SeekFile answers ErrNotImplemented where the source handle lists again)
+	var cursor *types.Var
+	if fn := ms["ReadDir"]; fn != nil {
+		ssax.Instrs(fn, func(ins ssa.Instruction) {
+			if st, ok := ins.(*ssa.Store); ok {
+				if fa, ok := st.Addr.(*ssa.FieldAddr); ok && fa.X == ssa.Value(recvParam(fn)) {
+					cursor = fieldVarOf(fa)
+				}
+			}
+		})
+	}
+	if cursor == nil {
+		c.Hard("anchor: the cursor field cache.dir.ReadDir advances")
+		return
+	}
+	rewinds := false
+	if fn := ms["Seek"]; fn != nil && fn.Blocks != nil {
+		ssax.Instrs(fn, func(ins ssa.Instruction) {
+			if st, ok := ins.(*ssa.Store); ok {
+				if fa, ok := st.Addr.(*ssa.FieldAddr); ok && fieldVarOf(fa) == cursor {
+					if k, isK := ssax.ConstInt(st.Val); isK && k == 0 {
+						rewinds = true
+					}
+				}
+			}
+		})
+	}
+	c.Check(rewinds, "R10.8", "cache.dir.Seek|rewinds-the-listing", p.Pos(d.Obj().Pos()), "Seek resets the cursor ReadDir advances",
+		"cache.dir has no Seek that resets the listing cursor: Open(\".\"), ReadDir(-1), Seek(0, io.SeekStart) lists again on the source's directory handle, on the cache's handle hackpadfs.SeekFile fails with ErrNotImplemented — the same call sequence does not return the same results as on the source")
 }
 
 // ---------------- C11 ----------------
